@@ -217,8 +217,17 @@ def run_cell(cfg, cx):
                      np.asarray(ml.smse_loss(mk({q: jnp.asarray(cx.conc(v, vals)) for q, v in x.items()}),
                                              mk({q: jnp.asarray(cx.conc(v, vals)) for q, v in y.items()}), reduce=None))))
         # reduce='max': the row of the batch entry with the largest total (ties assumed away)
-        got_max = I.sym_call(lambda xb, yb: ml.timestep_smse_loss(mk(xb), mk(yb), steps, reduce="max"), x, y)
-        totals = [sum(per_step[b], S.ZERO) for b in range(batch)]
+        # the per-step losses are let-abstracted (hash-consed by canonical polynomial, so the code's and the definition's coincide
+        # exactly when they are the same polynomial): selecting the row with the largest total is then a linear query
+        old_thr, I.DEF_THRESHOLD = I.DEF_THRESHOLD, 4
+        try:
+            got_max = I.sym_call(lambda xb, yb: ml.timestep_smse_loss(mk(xb), mk(yb), steps, reduce="max"), x, y)
+            # the rows to select from: the code's own per-entry losses (proved equal to the definition by "timestep[None]" above),
+            # executed in the same let-abstracted mode so that they are built from the same atoms as the selection
+            per_def = np.asarray(I.sym_call(lambda xb, yb: ml.timestep_smse_loss(mk(xb), mk(yb), steps, reduce=None), x, y).a, dtype=object)
+        finally:
+            I.DEF_THRESHOLD = old_thr
+        totals = [sum(per_def[b], S.ZERO) for b in range(batch)]
         for b in range(batch):
             # strict maximum; the implied non-strict comparison is stated too, so that the first-index argmax guard (<=) is
             # met syntactically instead of through non-linear reasoning
@@ -226,7 +235,7 @@ def run_cell(cfg, cx):
             for o in range(batch):
                 if o != b:
                     assum += [S.lt(totals[o], totals[b]), S.le(totals[o], totals[b]), S.bnot(S.lt(totals[b], totals[o])), S.bnot(S.le(totals[b], totals[o]))]
-            cx.equal(f"timestep[max] when entry {b} is largest", got_max, per_step[b], assumptions=assum, key=f"steps:max:{b}:{ckey}",
+            cx.equal(f"timestep[max] when entry {b} is largest", got_max, per_def[b], assumptions=assum, key=f"steps:max:{b}:{ckey}",
                      replay=lambda vals, bvals, b=b: cx.deviates(
                          np.asarray(ml.timestep_smse_loss(mk({q: jnp.asarray(cx.conc(v, vals)) for q, v in x.items()}),
                                                           mk({q: jnp.asarray(cx.conc(v, vals)) for q, v in y.items()}), steps, reduce="max")),
